@@ -117,7 +117,63 @@ let process id raws ents th (items : flat list) =
    | RUndef, _ -> Printf.printf "case %s build=undef consistent=- names=- run=- roundtrip=%s\n" id roundtrip);
   print_string "end\n"
 
+(* ---- function-level mode: the same line format as harness/drive_repack_fn.c, the same "R ..." output ---- *)
+let rec take n l = if n <= 0 then [] else match l with [] -> z_of_int 0 :: take (n - 1) [] | x :: r -> x :: take (n - 1) r
+let show_lens rank l = if rank <= 0 then "-" else String.concat "," (List.map (fun z -> string_of_int (int_of_z z)) (take rank l))
+
+let fn_line toks =
+  match toks with
+  | "O" :: k :: rest ->
+    let k = int_of_string k in
+    let rec opts n l acc = if n = 0 then (List.rev acc, l) else
+        match l with
+        | f :: h :: r -> opts (n - 1) r ((match f with "t" -> OT (unhex h) | "c" -> OC (unhex h) | _ -> OM (unhex h)) :: acc)
+        | _ -> (List.rev acc, []) in
+    let (raws, rest) = opts k rest [] in
+    (match build raws with
+     | RUndef -> print_string "R build=undef\nR end\n"
+     | RErr -> print_string "R build=err\nR end\n"
+     | ROk o ->
+       let zi = int_of_z in
+       Printf.printf "R build=ok all_chunk=%d all_comp=%d comp_g=%d,%d chunk_g=%d:%s\n" (if o.all_chunk then 1 else 0)
+         (if o.all_comp then 1 else 0) (if o.all_comp then zi o.comp_g.c_type else 0) (if o.all_comp then zi o.comp_g.c_info else 0)
+         (if o.all_chunk then zi o.chunk_g.k_rank else 0)
+         (if o.all_chunk then show_lens (zi o.chunk_g.k_rank) o.chunk_g.k_lens else "-");
+       Printf.printf "R threshold=%d consistent=%d tbl=%d\n" (zi o.threshold) (if options_consistent o then 1 else 0) (List.length o.tbl);
+       List.iter (fun e ->
+           Printf.printf "R e %s %d %d %d %s\n"
+             (if e.p_path = [] then "-" else String.concat "" (List.map (fun c -> Printf.sprintf "%02x" (zi c)) e.p_path))
+             (zi e.p_comp.c_type) (zi e.p_comp.c_info) (zi e.p_chunk.k_rank) (show_lens (zi e.p_chunk.k_rank) e.p_chunk.k_lens)) o.tbl;
+       (match rest with
+        | "Q" :: _ :: qs ->
+          let rec go = function
+            | rk :: ph :: fl :: ls :: ct :: ci :: cp :: inf :: r ->
+              let rank = int_of_string rk in
+              let z s = z_of_int (int_of_string s) in
+              let g = { g_flags = z fl; g_lens = take rank (zlist ls); g_ctype = z ct; g_cinfo = z ci; g_comp = z cp; g_info = z inf } in
+              (match get_info o (z_of_int rank) (unhex ph) g with
+               | None -> print_string "R q -1\n"
+               | Some (g', have) ->
+                 Printf.printf "R q %d %d %s %d %d %d %d\n" (if have then 1 else 0) (zi g'.g_flags) (show_lens rank g'.g_lens)
+                   (zi g'.g_ctype) (zi g'.g_cinfo) (zi g'.g_comp) (zi g'.g_info));
+              go r
+            | _ -> () in
+          go qs
+        | _ -> ());
+       print_string "R end\n")
+  | _ -> ()
+
 let () =
+  if Array.length Sys.argv > 2 && Sys.argv.(1) = "fn" then begin
+    let ic = open_in Sys.argv.(2) in
+    (try
+       while true do
+         let line = input_line ic in
+         fn_line (List.filter (fun s -> s <> "") (String.split_on_char ' ' line))
+       done
+     with End_of_file -> ());
+    exit 0
+  end;
   let ic = if Array.length Sys.argv > 1 then open_in Sys.argv.(1) else stdin in
   let id = ref "" and raws = ref [] and ents = ref [] and th = ref 1024 and items = ref [] and idx = ref 0 in
   (try
